@@ -110,40 +110,6 @@ theorem enforce_section_exact (sc : Sec) (s : St K) :
 
 /-! ### the energy solve -/
 
-/-- normal form of the loop: either the residual first becomes positive at `g·f^k` (`k ≤ n`) and the loop stops
-there, or it is non-positive at all `g·f^j`, `j ≤ n`, and the loop stops at `g·f^n` -/
-theorem expandTo_cases (res : K → K) (f : K) (n : Nat) (g : K) :
-    (∃ k, k ≤ n ∧ FirstPos res g f k ∧ expandTo res f n g = g * f ^ k) ∨
-    (NoPos res g f n ∧ expandTo res f n g = g * f ^ n) := by
-  rcases firstPos_or_noPos res g f n with ⟨k, hk, hf⟩ | hno
-  · exact Or.inl ⟨k, hk, hf, expandTo_of_firstPos res f n g k hk hf⟩
-  · exact Or.inr ⟨hno, expandTo_of_noPos res f n g hno⟩
-
-/-- `solveCore` without its local definitions -/
-theorem solveCore_eq (res : K → K) (brent : K → K → Option K) (P : Params K) :
-    solveCore res brent P =
-      if res 0 > 0 then Res.none
-      else if res (expandTo res P.factor P.maxExpand P.guess) > 0 then
-        Res.ofOption (brent 0 (expandTo res P.factor P.maxExpand P.guess))
-      else if P.symmetric = true then
-        if res (expandTo res P.factor P.maxExpand (-P.guess)) > 0 then
-          Res.ofOption (brent (expandTo res P.factor P.maxExpand (-P.guess)) 0)
-        else Res.none
-      else Res.none := rfl
-
-theorem ofOption_ne_error {α : Type} (o : Option α) : Res.ofOption o ≠ Res.error := by
-  cases o <;> (intro h; cases h)
-
-theorem ofOption_eq_ok {α : Type} (o : Option α) (x : α) : Res.ofOption o = Res.ok x ↔ o = some x := by
-  cases o with
-  | none => exact ⟨fun h => (by cases h), fun h => (by cases h)⟩
-  | some y => exact ⟨fun h => (by cases h; rfl), fun h => (by cases h; rfl)⟩
-
-theorem ofOption_eq_none {α : Type} (o : Option α) : Res.ofOption o = Res.none ↔ o = none := by
-  cases o with
-  | none => exact ⟨fun _ => rfl, fun _ => rfl⟩
-  | some y => exact ⟨fun h => (by cases h), fun h => (by cases h)⟩
-
 /-- `solve_missing_coord` never raises once the variable name is known -/
 theorem solve_never_error (res : K → K) (brent : K → K → Option K) (P : Params K) :
     solveCore res brent P ≠ Res.error := by
@@ -453,11 +419,10 @@ theorem energy_chain_local_partial (ρ : Nat → ℝ) (hs : ρ 8 * ρ 8 = 1) :
     ((X 0 + ρ 7) ^ 2 + X 1 ^ 2 + X 2 ^ 2 = (ρ 8 * ρ 6 * ρ 0 + ρ 9) ^ 2 + ρ 6 ^ 2 * (ρ 1 ^ 2 + ρ 2 ^ 2)) ∧
     ((X 0 - (1 - ρ 7)) ^ 2 + X 1 ^ 2 + X 2 ^ 2
       = (ρ 8 * ρ 6 * ρ 0 + ρ 9 + 1) ^ 2 + ρ 6 ^ 2 * (ρ 1 ^ 2 + ρ 2 ^ 2)) := by
-  simp only [synEnv, eval, l2s0, l2s1, l2s2, l2s3, l2s4, l2s5]
-  refine ⟨?_, ?_, ?_⟩
-  · linear_combination (-(1 / 2) * ρ 6 ^ 2 * (ρ 0 ^ 2 + ρ 1 ^ 2)) * hs
-  · linear_combination (ρ 6 ^ 2 * ρ 1 ^ 2) * hs
-  · linear_combination (ρ 6 ^ 2 * ρ 1 ^ 2) * hs
+  -- `sign = ±1`: substitute and normalise (robust against re-arrangements of the traced terms)
+  rcases mul_self_eq_one_iff.mp hs with h | h <;>
+    simp only [synEnv, eval, l2s0, l2s1, l2s2, l2s3, l2s4, l2s5, h] <;>
+    refine ⟨?_, ?_, ?_⟩ <;> ring
 
 /-! ### non-vacuity -/
 
